@@ -569,6 +569,57 @@ def invoke (f : Fn) : Sem := fun a w =>
     (o2.1, o.2.1 ++ o2.2.1, o2.2.2)
   | _ => o
 
+/-! ### Re-entrant calls: a call of the decorated callable that starts while another call of the SAME callable is still open
+
+The body of the decorated function calls the decorated callable again (recursion through the module-level name, re-entrance through
+a callback argument): invocation `i` of the body binds its arguments, then calls the callable once for every argument tuple of
+`plan i` (results and exceptions of those calls are dropped), then produces the outcome `script i`.  `callWith none` is `call`;
+`callFuel top plan n` lets the re-entered callable re-enter again, `n` levels deep (a plan is finite, so `plan.length + 1` levels
+are all there are). -/
+
+/-- the re-entrance a body performs: which argument tuples per invocation index, and what calling the callable means -/
+structure Reent where
+  plan : Nat → List Args
+  sem : Sem
+
+/-- call and, if a coroutine comes back, await it -/
+def invokeSem (s : Sem) : Sem := fun a w =>
+  let o := s a w
+  match o.1 with
+  | .ret (.coro run) =>
+    let o2 := run o.2.2
+    (o2.1, o.2.1 ++ o2.2.1, o2.2.2)
+  | _ => o
+
+/-- the nested calls of one body invocation, one after the other -/
+def runPlan (s : Sem) : List Args → World → List Ev × World
+  | [], w => ([], w)
+  | a :: rest, w =>
+    let o := invokeSem s a w
+    let r := runPlan s rest o.2.2
+    (o.2.1 ++ r.1, r.2)
+
+def runBodyRe (re : Option Reent) (c : Callee) (b : Body) (bd : Bound) (w : World) : Out :=
+  let i := w.count c
+  let nested := match re with
+    | none => ([], w.bump c)
+    | some r => runPlan r.sem (r.plan i) (w.bump c)
+  (outcRes (b.script i), .body c i bd :: nested.1, nested.2)
+
+def callBodyRe (re : Option Reent) (c : Callee) (b : Body) : Sem := fun a w =>
+  match bind b.sig a with
+  | none => (.exc (.lib "TypeError"), [], w)
+  | some bd => if b.isCoro then (.ret (.coro (runBodyRe re c b bd)), [], w) else runBodyRe re c b bd w
+
+def callWith (re : Option Reent) : Fn → Sem
+  | .body b => callBodyRe re .wrapped b
+  | .bound s inner => fun a w => callWith re inner { a with pos := s :: a.pos } w
+  | .deco d p inner => callLayer d p inner (callWith re inner)
+
+def callFuel (top : Fn) (plan : Nat → List Args) : Nat → Sem
+  | 0 => callWith none top
+  | n + 1 => callWith (some ⟨plan, callFuel top plan n⟩) top
+
 /-- applying the decorator (decoration time) -/
 def decorate (d : Deco) (p : Params) (inner : Fn) : Except Exc Fn :=
   match d.renameDict with
